@@ -393,6 +393,13 @@ theorem respUnwrap_ok_iff (C : Cipher) (apdu : Bytes) (st : SmSt) :
         refine ⟨fun _ => ⟨h3', hiff.mp hm⟩, fun _ => ?_⟩
         rw [h2]
 
+/-- the original Le inside the 0x97 object is big-endian in each of its three forms (values whose octets differ) -/
+example : f97 ⟨0, 0xA4, 4, 12, [], 300⟩ = [0x97, 3, 0, 0x01, 0x2C] ∧ f97 ⟨0, 0xA4, 4, 12, [9], 0x1234⟩ = [0x97, 2, 0x12, 0x34] ∧
+    f97 ⟨0, 0xA4, 4, 12, [9], 200⟩ = [0x97, 1, 200] ∧ f97 ⟨0, 0xA4, 4, 12, [], 65536⟩ = [0x97, 3, 0, 0, 0] ∧
+    (smCmdUnwrap ⟨fun _ x => x, fun _ x => x⟩
+      (smCmdWrap ⟨fun _ x => x, fun _ x => x⟩ ⟨0, 0xA4, 4, 12, [], 0xFF00⟩ ⟨[], [], 1 :: List.replicate 15 0⟩).2
+      ⟨[], [], 1 :: List.replicate 15 0⟩).2.map (fun c => c.rdf_len) = some 0xFF00 := by decide +kernel
+
 /-! ### non-vacuity of the hypotheses -/
 
 /-- belt itself satisfies `CipherOK` (C01 `length_blockEncr`), and so does the identity cipher used in the examples -/
